@@ -823,3 +823,90 @@ pub proof fn lemma_multi_close(d0: Seq<Energy>, a: Seq<Energy>, b: Seq<Energy>, 
     reveal(retained_ok); reveal(multi_ctx);
     lemma_aux_multi_if(d0, a, b, rem, ki, id, m, os, n, q0, qf, tot, aux_tot);
 }
+
+// ---- the sentences of C06 as consequences of the specification (lemmas over aux_target)
+/// sum over the services of what each of them gets
+pub open spec fn target_sum(cs: Seq<Energy>, id: i32, t: int, l: Seq<Service>) -> real decreases l.len() {
+    if l.len() == 0 { 0real } else { target_sum(cs, id, t, l.drop_last()) + aux_target(cs, id, l.last(), t) }
+}
+pub proof fn lemma_single_sum(cs: Seq<Energy>, id: i32, t: int, l: Seq<Service>, s0: Service)
+    requires a_any(cs, cs.len() as int, ASel::AuxAll(id)), aux_one(cs, id), l.no_duplicates(),
+        use_srv(cs, cs.len() as int, id, s0), forall|s: Service| #[trigger] use_srv(cs, cs.len() as int, id, s) ==> s == s0,
+    ensures target_sum(cs, id, t, l) == (if l.contains(s0) { a_sum(cs, cs.len() as int, ASel::AuxAll(id), t) } else { 0real }),
+    decreases l.len(),
+{
+    if l.len() > 0 {
+        let l0 = l.drop_last();
+        let x = l.last();
+        assert(l0.no_duplicates()) by { assert forall|i: int, j: int| 0 <= i < l0.len() && 0 <= j < l0.len() && i != j implies l0[i] != l0[j] by { assert(l0[i] == l[i] && l0[j] == l[j]); } }
+        lemma_single_sum(cs, id, t, l0, s0);
+        if x == s0 {
+            assert(!l0.contains(s0)) by { if l0.contains(s0) { let i = choose|i: int| 0 <= i < l0.len() && l0[i] == s0; assert(l[i] == s0 && l[l.len() - 1] == s0); } }
+            assert(l.contains(s0)) by { assert(l[l.len() - 1] == s0); }
+        } else {
+            assert(!use_srv(cs, cs.len() as int, id, x));
+            assert(l.contains(s0) == l0.contains(s0)) by {
+                if l.contains(s0) { let i = choose|i: int| 0 <= i < l.len() && l[i] == s0; assert(i < l.len() - 1); assert(l0[i] == s0); }
+                if l0.contains(s0) { let i = choose|i: int| 0 <= i < l0.len() && l0[i] == s0; assert(l[i] == s0); }
+            }
+        }
+    }
+}
+pub proof fn lemma_multi_sum(cs: Seq<Energy>, id: i32, t: int, l: Seq<Service>)
+    requires a_any(cs, cs.len() as int, ASel::AuxAll(id)), !aux_one(cs, id), q_tot(cs, id, t, services7()) > 0real,
+    ensures target_sum(cs, id, t, l) == rmul(q_tot(cs, id, t, l) / q_tot(cs, id, t, services7()), a_sum(cs, cs.len() as int, ASel::AuxAll(id), t)),
+    decreases l.len(),
+{
+    let q = q_tot(cs, id, t, services7());
+    let tot = a_sum(cs, cs.len() as int, ASel::AuxAll(id), t);
+    if l.len() > 0 {
+        let l0 = l.drop_last();
+        let x = l.last();
+        lemma_multi_sum(cs, id, t, l0);
+        let a = q_tot(cs, id, t, l0);
+        let b = q_abs(cs, id, x, t);
+        assert(aux_target(cs, id, x, t) == rmul(b / q, tot)) by {
+            if !a_any(cs, cs.len() as int, ASel::Out(id, x)) { assert(b == 0real); assert(rmul(0real / q, tot) == 0real) by(nonlinear_arith) requires q > 0real; }
+        }
+        assert(rmul(a / q, tot) + rmul(b / q, tot) == rmul((a + b) / q, tot)) by(nonlinear_arith) requires q > 0real;
+    } else {
+        assert(rmul(0real / q, tot) == 0real) by(nonlinear_arith) requires q > 0real;
+    }
+}
+/// C06: per system and step the shares add up to what was declared - for a single-service system always, for a system with
+/// several services at every step at which it has some output (q_tot > 0; a step with no output at all is the known finding D8)
+pub proof fn lemma_aux_conserved(cs: Seq<Energy>, id: i32, t: int)
+    requires a_any(cs, cs.len() as int, ASel::AuxAll(id)), aux_one(cs, id) || q_tot(cs, id, t, services7()) > 0real,
+    ensures target_sum(cs, id, t, services7()) == a_sum(cs, cs.len() as int, ASel::AuxAll(id), t),
+{
+    lemma_services7();
+    let tot = a_sum(cs, cs.len() as int, ASel::AuxAll(id), t);
+    if aux_one(cs, id) {
+        let s0 = choose|s0: Service| #[trigger] use_srv(cs, cs.len() as int, id, s0) && forall|s: Service| #[trigger] use_srv(cs, cs.len() as int, id, s) ==> s == s0;
+        lemma_single_sum(cs, id, t, services7(), s0);
+        assert(services7().contains(s0));
+    } else {
+        let q = q_tot(cs, id, t, services7());
+        lemma_multi_sum(cs, id, t, services7());
+        assert(rmul(q / q, tot) == tot) by(nonlinear_arith) requires q > 0real;
+    }
+}
+pub proof fn lemma_q_tot_nonneg(cs: Seq<Energy>, id: i32, t: int, l: Seq<Service>)
+    ensures q_tot(cs, id, t, l) >= 0real,
+    decreases l.len(),
+{
+    if l.len() > 0 { lemma_q_tot_nonneg(cs, id, t, l.drop_last()); }
+}
+/// C06: no share is negative when the declared auxiliary energy is not
+pub proof fn lemma_aux_share_nonneg(cs: Seq<Energy>, id: i32, s: Service, t: int)
+    requires a_sum(cs, cs.len() as int, ASel::AuxAll(id), t) >= 0real,
+    ensures aux_target(cs, id, s, t) >= 0real,
+{
+    let tot = a_sum(cs, cs.len() as int, ASel::AuxAll(id), t);
+    let q = q_tot(cs, id, t, services7());
+    lemma_q_tot_nonneg(cs, id, t, services7());
+    let b = q_abs(cs, id, s, t);
+    assert(b >= 0real);
+    if q > 0real { assert(rmul(b / q, tot) >= 0real) by(nonlinear_arith) requires q > 0real, b >= 0real, tot >= 0real; }
+    assert(rmul(0real, tot) == 0real) by(nonlinear_arith);
+}
